@@ -1,7 +1,7 @@
 mod flags;
 pub(crate) use flags::Flags;
 
-use crate::common::Reader;
+use crate::common::{DecodeError, DecodeResult, Reader};
 
 #[derive(Clone, Debug, Eq, PartialEq)]
 pub(crate) struct Header {
@@ -15,10 +15,10 @@ impl Header {
     pub const LENGTH: u16 = 6;
 
     #[inline]
-    pub fn try_read<T>(reader: &mut impl Reader<T>) -> Option<Self> {
+    pub fn try_read<T>(reader: &mut impl Reader<T>) -> DecodeResult<Option<Self>> {
         // Note: Subsequent unsafe code depends on this check
         if reader.len() < Self::LENGTH as usize {
-            return None;
+            return Ok(None);
         }
 
         // Flags and length share the first 2 octets
@@ -37,13 +37,16 @@ impl Header {
         // The final 2 octets are the Attribute Type
         let attribute_type = unsafe { reader.read_u16_be_unchecked() };
 
-        let payload_length = length - Self::LENGTH;
+        // A length that does not even cover the header is unusable
+        let payload_length = length
+            .checked_sub(Self::LENGTH)
+            .ok_or(DecodeError::InvalidAVPLength(length))?;
 
-        Some(Header {
+        Ok(Some(Header {
             flags,
             payload_length,
             vendor_id,
             attribute_type,
-        })
+        }))
     }
 }
